@@ -206,8 +206,11 @@ func checkSpan(c vcase) *vk.Failure {
 				return vk.Failf(k, "Span(n=%d, %v, %v)[%d] = %v want %v (diff %g tol %g)", n, l, u, i, d[i], x, math.Abs(d[i]-x), tol)
 			}
 		}
+		// "The first element of the destination is l, the final element of the
+		// destination is u." (Outside the overflow zone, where the interpolation
+		// formula gives u exactly as well.)
 		if d[n-1] != u {
-			vk.Class("floats.Span/last!=u")
+			return vk.Failf(key+"/last-is-not-u", "Span(n=%d, %v, %v)[%d] = %v, documented u (off by %g)", n, l, u, n-1, d[n-1], d[n-1]-u)
 		}
 		return nil
 
@@ -414,6 +417,9 @@ func checkSpan(c vcase) *vk.Failure {
 			if !(math.Abs(real(d[i])-xr) <= tr) || !(math.Abs(imag(d[i])-xi) <= ti) {
 				return vk.Failf(key+"/value", "Span(n=%d, %v, %v)[%d] = %v want (%v,%v) tol (%g,%g)", n, zl, zu, i, d[i], xr, xi, tr, ti)
 			}
+		}
+		if d[n-1] != zu {
+			return vk.Failf(key+"/last-is-not-u", "Span(n=%d, %v, %v)[%d] = %v, documented u", n, zl, zu, n-1, d[n-1])
 		}
 		return nil
 	}
